@@ -442,6 +442,20 @@ class Interp:
         r = a ** op["n"]
         return "unit", r, (M.u_pow(ma, op["n"]) if ma is not None else None), {}
 
+    def op_pow_float(self, op, prepare, prepared=None):
+        """F1: an exponent of the wrong type (7.0 for 7).  Whether it is refused or accepted
+        is not judged; what is judged is every later integer expression."""
+        if prepare:
+            return self._args(op, ("a", op.get("kind", "unit")))
+        (a, ma), = prepared
+        try:
+            a ** float(op["n"])
+            refused = False
+        except TypeError:
+            refused = True
+        self.faults_fired["F1"] = self.faults_fired.get("F1", 0) + 1
+        return None, ABSENT, None, {"refused": refused}
+
     def op_u_root(self, op, prepare, prepared=None):
         if prepare:
             return self._args(op, ("a", "unit"))
